@@ -294,6 +294,17 @@ class Entity(Block):
                         f"assignment to port '{name}' failed (src={value}, target={info.ports[name]})"
                     )
 
+                # An assignment may extend the source, a port
+                # association requires vectors of the same width.
+                port_width = getattr(info.ports[name], "width", None)
+                value_width = getattr(value, "width", None)
+
+                assert (
+                    port_width is None
+                    or value_width is None
+                    or port_width == value_width
+                ), f"width of the object connected to port '{name}' ({value_width}) does not match the width of the port ({port_width})"
+
                 self._cohdl_port_definitions[name] = value
             elif name in info.generics:
                 self._cohdl_generic_definitions[name] = value
